@@ -237,6 +237,7 @@ func c09(run *ev.Run, tier string) {
 	})
 	c09History(run, dir, payload, &slotsCompared)
 	c09VirtualFiles(run, payload, &slotsCompared)
+	c09DollarPaths(run, dir, payload, &slotsCompared)
 	run.Set("slots_compared", slotsCompared)
 	run.Set("script_bytes_compared", bytesCompared)
 	run.Set("subsets_per_format", map[string]int{"deb": 128, "rpm": 128, "apk": 64, "archlinux": 64, "ipk": 16})
@@ -428,6 +429,41 @@ func c09VirtualFiles(run *ev.Run, payload string, compared *int64) {
 			got, ok := slotBytes(f, p, d.slot)
 			if !ok || !bytes.Equal(bytes.TrimRight(got, "\n"), bytes.TrimRight(want, "\n")) {
 				run.Violate("C09/"+f+"/slot-content/script-read-from-a-file-reporting-size-0", map[string]any{"slot": d.slot, "present": ok, "got": ev.Short(string(got), 80), "want": string(want)})
+			}
+		}
+	}
+}
+
+// c09DollarPaths: script paths are paths, not templates: a directory or file
+// name that contains '$' followed by a name, a digit or a brace is used as
+// written (the process environment even defines some of the names).
+func c09DollarPaths(run *ev.Run, dir, payload string, compared *int64) {
+	_ = os.Setenv("VERIF_SCRIPT_DIR", "elsewhere")
+	defer os.Unsetenv("VERIF_SCRIPT_DIR")
+	for _, dn := range []string{"stage$1", "build${x}", "scr$VERIF_SCRIPT_DIR", "cost$", "a$$b"} {
+		sd := filepath.Join(dir, dn)
+		_ = os.MkdirAll(sd, 0o755)
+		for _, f := range formats {
+			for _, d := range slotTable[f] {
+				body := fmt.Sprintf("#!/bin/sh\n# DOLLAR-%s-%s\nexit 0\n", f, d.slot)
+				sp := filepath.Join(sd, d.slot+".sh")
+				_ = os.WriteFile(sp, []byte(body), 0o755)
+				s := &gen.Spec{Name: "scrd", Arch: "amd64", Version: "1.0.0", Maintainer: "S <s@example.com>", Description: "scripts", MTime: 1400000000}
+				s.RPM.BuildHost = "verif-host"
+				s.Contents = []*gen.Content{{Src: payload, Dst: "/opt/scrd/payload.txt"}}
+				d.set(s, sp)
+				run.Case("dollar-in-script-path|"+dn+"|"+f+"|"+d.slot, true)
+				res := buildYAML(s.YAML(), f)
+				if res.Err != nil || res.Panic != "" {
+					run.Violate("C09/"+f+"/build-error", map[string]any{"script_path": "<dir>/" + dn + "/" + d.slot + ".sh", "error": fmt.Sprint(res.Err, ev.Short(res.Panic, 200))})
+					continue
+				}
+				p := dec.Decode(f, res.Bytes, false)
+				atomic.AddInt64(compared, 1)
+				got, ok := slotBytes(f, p, d.slot)
+				if !ok || string(got) != body {
+					run.Violate("C09/"+f+"/slot-content/script-path-containing-a-dollar-sign", map[string]any{"slot": d.slot, "directory": dn, "present": ok, "got": ev.Short(string(got), 100)})
+				}
 			}
 		}
 	}
